@@ -25,8 +25,8 @@ def clientCredentialsAuthMethods : List String := ["client_secret_basic"]
 def refreshAuthMethods : List String := ["client_secret_basic"]
 def deviceAuthMethods : List String := ["client_secret_basic", "client_secret_post", "none"]
 
-/-- `^[a-zA-Z0-9.-_~]{43,128}\Z` as (character ranges, min, max, end anchor) -/
-def codeVerifierRanges : List (Nat × Nat) := [(97, 122), (65, 90), (48, 57), (46, 95), (126, 126)]
+/-- `^[a-zA-Z0-9\-._~]{43,128}\Z` as (character ranges, min, max, end anchor) -/
+def codeVerifierRanges : List (Nat × Nat) := [(97, 122), (65, 90), (48, 57), (45, 45), (46, 46), (95, 95), (126, 126)]
 def codeVerifierMin : Nat := 43
 def codeVerifierMax : Nat := 128
 def codeVerifierEndIsDollar : Bool := false
